@@ -9,47 +9,252 @@ open EspadaVerif Spec Kernel
 
 theorem choose_map {α β : Type} (f : α → β) (k : Nat) (l : List α) :
     choose k (l.map f) = (choose k l).map (List.map f) := by
-  sorry
+  induction l generalizing k with
+  | nil => cases k <;> simp [choose]
+  | cons x xs ih =>
+    cases k with
+    | zero => simp [choose]
+    | succ k => simp [choose, ih, Function.comp_def]
 
 theorem choose_filter {α : Type} (p : α → Bool) (k : Nat) (l : List α) :
     (choose k l).filter (fun s => s.all p) = choose k (l.filter p) := by
-  sorry
+  induction l generalizing k with
+  | nil => cases k <;> simp [choose]
+  | cons x xs ih =>
+    cases k with
+    | zero => simp [choose]
+    | succ k =>
+      by_cases hx : p x = true
+      · simp [choose, List.filter_map, Function.comp_def, hx, ih]
+      · simp [choose, List.filter_map, Function.comp_def, hx, ih]
 
 theorem sublist_of_mem_choose {α : Type} {k : Nat} {l s : List α} (h : s ∈ choose k l) :
     s.Sublist l ∧ s.length = k := by
-  sorry
+  induction l generalizing k s with
+  | nil => cases k <;> simp_all [choose]
+  | cons x xs ih =>
+    cases k with
+    | zero => simp_all [choose]
+    | succ k =>
+      simp only [choose, List.mem_append, List.mem_map] at h
+      rcases h with h | ⟨t, ht, rfl⟩
+      · have := ih h
+        exact ⟨this.1.cons _, this.2⟩
+      · have := ih ht
+        exact ⟨this.1.cons_cons _, by simp [this.2]⟩
 
 theorem choose_ne_nil {α : Type} (k : Nat) (l : List α) (h : k ≤ l.length) : choose k l ≠ [] := by
-  sorry
+  induction l generalizing k with
+  | nil => cases k <;> simp_all [choose]
+  | cons x xs ih =>
+    cases k with
+    | zero => simp [choose]
+    | succ k =>
+      simp only [choose]
+      intro hc
+      have := List.append_eq_nil_iff.mp hc
+      have h2 := this.2
+      simp at h2
+      exact ih k (by simp at h; omega) h2
 
-theorem minList_le_of_mem {l : List Nat} {x : Nat} (h : x ∈ l) : minList l ≤ x := by
-  sorry
+theorem foldl_min_le_init (l : List Nat) (a : Nat) : l.foldl min a ≤ a := by
+  induction l generalizing a with
+  | nil => simp
+  | cons x xs ih => simp only [List.foldl_cons]; exact Nat.le_trans (ih _) (Nat.min_le_left _ _)
 
-theorem minList_mem_or (l : List Nat) : minList l = 7463 ∨ minList l ∈ l := by
-  sorry
+theorem foldl_min_le_of_mem {l : List Nat} {x : Nat} (a : Nat) (h : x ∈ l) : l.foldl min a ≤ x := by
+  induction l generalizing a with
+  | nil => simp at h
+  | cons y ys ih =>
+    simp only [List.foldl_cons]
+    rcases List.mem_cons.mp h with rfl | h
+    · exact Nat.le_trans (foldl_min_le_init _ _) (Nat.min_le_right _ _)
+    · exact ih _ h
+
+theorem foldl_min_mem_or (l : List Nat) (a : Nat) : l.foldl min a = a ∨ l.foldl min a ∈ l := by
+  induction l generalizing a with
+  | nil => simp
+  | cons y ys ih =>
+    simp only [List.foldl_cons]
+    rcases ih (min a y) with h | h
+    · rw [h]
+      rcases Nat.le_total a y with hay | hay
+      · left; exact Nat.min_eq_left hay
+      · right; rw [Nat.min_eq_right hay]; simp
+    · right; exact List.mem_cons_of_mem _ h
+
+theorem minList_le_of_mem {l : List Nat} {x : Nat} (h : x ∈ l) : minList l ≤ x :=
+  foldl_min_le_of_mem _ h
+
+theorem minList_mem_or (l : List Nat) : minList l = 7463 ∨ minList l ∈ l :=
+  foldl_min_mem_or l 7463
 
 theorem minList_eq_of_forall {l : List Nat} {v : Nat} (hm : v ∈ l) (hle : ∀ x ∈ l, v ≤ x) (hv : v ≤ 7463) :
     minList l = v := by
-  sorry
-
-/-- the best class does not depend on the order in which the cards are presented -/
-theorem best_perm {X Y : List (Nat × Nat)} (h : X.Perm Y) : best X = best Y := by
-  sorry
+  apply Nat.le_antisymm (minList_le_of_mem hm)
+  rcases minList_mem_or l with h | h
+  · rw [h]; exact hv
+  · exact hle _ h
 
 theorem allSameSuit_iff (S : List (Nat × Nat)) :
     allSameSuit S = true ↔ ∀ x ∈ S, ∀ y ∈ S, x.2 = y.2 := by
-  sorry
+  cases S with
+  | nil => simp [allSameSuit]
+  | cons c rest =>
+    obtain ⟨r, s⟩ := c
+    simp only [allSameSuit, List.all_eq_true, beq_iff_eq]
+    constructor
+    · intro h x hx y hy
+      have hx' : x.2 = s := by
+        rcases List.mem_cons.mp hx with rfl | hx
+        · rfl
+        · exact h x hx
+      have hy' : y.2 = s := by
+        rcases List.mem_cons.mp hy with rfl | hy
+        · rfl
+        · exact h y hy
+      rw [hx', hy']
+    · intro h x hx
+      exact h x (List.mem_cons_of_mem _ hx) (r, s) (List.mem_cons_self)
+
+theorem sortRanks_of_sorted {l : List Nat} (h : l.Pairwise (· ≤ ·)) : sortRanks l = l := by
+  unfold sortRanks
+  apply List.mergeSort_of_pairwise
+  simpa using h
 
 theorem class5_of_sorted (S : List (Nat × Nat)) (hl : S.length = 5) (hs : (S.map (·.1)).Pairwise (· ≤ ·)) :
     class5 S = if allSameSuit S then sclassL (S.map (·.1)) else uclassL (S.map (·.1)) := by
-  sorry
+  unfold class5
+  rw [sortRanks_of_sorted hs]
+  match S, hl with
+  | [a, b, c, d, e], _ => simp [sclassL, uclassL]
+
+theorem mem_choose_of_sublist {α : Type} {l s : List α} (h : s.Sublist l) : s ∈ choose s.length l := by
+  induction h with
+  | slnil => simp [choose]
+  | cons a h ih =>
+    rename_i s l
+    cases s with
+    | nil => simp [choose]
+    | cons y ys =>
+      simp only [List.length_cons, choose, List.mem_append]
+      left; simpa using ih
+  | cons_cons a h ih =>
+    simp only [List.length_cons, choose, List.mem_append, List.mem_map]
+    right; exact ⟨_, ih, rfl⟩
+
+theorem mem_choose_iff {α : Type} {k : Nat} {l s : List α} :
+    s ∈ choose k l ↔ s.Sublist l ∧ s.length = k :=
+  ⟨sublist_of_mem_choose, fun ⟨h, hk⟩ => hk ▸ mem_choose_of_sublist h⟩
+
+theorem sortRanks_perm {l l' : List Nat} (h : l.Perm l') : sortRanks l = sortRanks l' := by
+  unfold sortRanks
+  have tr : ∀ a b c : Nat, decide (a ≤ b) = true → decide (b ≤ c) = true → decide (a ≤ c) = true := by
+    intro a b c; simp; omega
+  have tot : ∀ a b : Nat, (decide (a ≤ b) || decide (b ≤ a)) = true := by
+    intro a b; simp; omega
+  apply List.Perm.eq_of_pairwise (le := fun a b : Nat => decide (a ≤ b) = true)
+  · intro a b _ _; simp; omega
+  · exact List.pairwise_mergeSort tr tot l
+  · exact List.pairwise_mergeSort tr tot l'
+  · exact (List.mergeSort_perm l _).trans (h.trans (List.mergeSort_perm l' _).symm)
+
+theorem allSameSuit_perm {S S' : List (Nat × Nat)} (h : S.Perm S') : allSameSuit S = allSameSuit S' := by
+  rw [Bool.eq_iff_iff, allSameSuit_iff, allSameSuit_iff]
+  constructor
+  · intro H x hx y hy; exact H x (h.mem_iff.mpr hx) y (h.mem_iff.mpr hy)
+  · intro H x hx y hy; exact H x (h.mem_iff.mp hx) y (h.mem_iff.mp hy)
+
+theorem class5_perm {S S' : List (Nat × Nat)} (h : S.Perm S') : class5 S = class5 S' := by
+  unfold class5
+  rw [sortRanks_perm (h.map (·.1)), allSameSuit_perm h]
+
+theorem minList_congr {l l' : List Nat} (h : ∀ v, v ∈ l ↔ v ∈ l') : minList l = minList l' := by
+  have key : ∀ {l l' : List Nat}, (∀ v, v ∈ l → v ∈ l') → minList l' ≤ minList l := by
+    intro l l' h
+    rcases minList_mem_or l with h1 | h1
+    · rw [h1]; exact foldl_min_le_init _ _
+    · exact minList_le_of_mem (h _ h1)
+  exact Nat.le_antisymm (key fun v => (h v).mpr) (key fun v => (h v).mp)
+
+theorem mem_classes_of_perm {X Y : List (Nat × Nat)} (h : X.Perm Y) (v : Nat)
+    (hv : v ∈ (choose 5 X).map class5) : v ∈ (choose 5 Y).map class5 := by
+  obtain ⟨S, hS, rfl⟩ := List.mem_map.mp hv
+  obtain ⟨hsub, hlen⟩ := sublist_of_mem_choose hS
+  obtain ⟨S', hp, hsub'⟩ := List.exists_perm_sublist hsub h
+  exact List.mem_map.mpr ⟨S', mem_choose_iff.mpr ⟨hsub', by rw [hp.length_eq, hlen]⟩, class5_perm hp⟩
+
+/-- the best class does not depend on the order in which the cards are presented -/
+theorem best_perm {X Y : List (Nat × Nat)} (h : X.Perm Y) : best X = best Y := by
+  unfold best
+  exact minList_congr fun v => ⟨mem_classes_of_perm h v, mem_classes_of_perm h.symm v⟩
+
+theorem ascents_le_cons (a : Nat) (R : List Nat) : ascents R ≤ ascents (a :: R) := by
+  cases R with
+  | nil => simp [ascents]
+  | cons b t => simp only [ascents]; omega
 
 theorem ascents_bound {R T : List Nat} (hR : R.Pairwise (· ≤ ·)) (hsub : T.Sublist R) (hT : T.Pairwise (· < ·)) :
     T.length ≤ ascents R + 1 := by
-  sorry
+  induction R generalizing T with
+  | nil => simp_all
+  | cons a R' ih =>
+    have hR' := List.pairwise_cons.mp hR
+    cases hsub with
+    | cons _ h =>
+      exact Nat.le_trans (ih hR'.2 h hT) (Nat.add_le_add_right (ascents_le_cons a R') 1)
+    | cons_cons _ h =>
+      rename_i T'
+      have hT' := List.pairwise_cons.mp hT
+      cases R' with
+      | nil => simp_all
+      | cons b R'' =>
+        have hab : a ≤ b := hR'.1 b (by simp)
+        by_cases hlt : a < b
+        · have := ih hR'.2 h hT'.2
+          simp only [ascents, hlt, if_true, List.length_cons] at this ⊢
+          omega
+        · have hba : a = b := by omega
+          subst hba
+          have hsub2 : (a :: T').Sublist (a :: R'') := by
+            cases h with
+            | cons _ h2 => exact h2.cons_cons a
+            | cons_cons _ h2 =>
+              have := hT'.1 a (by simp)
+              omega
+          have := ih hR'.2 hsub2 hT
+          simp only [ascents, hlt, if_false] at this ⊢
+          omega
 
 theorem fiveEq_false {R : List Nat} (hl : R.length = 7) (hs : R.Pairwise (· ≤ ·)) (hc : ∀ r, R.count r ≤ 4) :
     fiveEq R = false := by
-  sorry
+  match R, hl with
+  | [a, b, c, d, e, f, g], _ =>
+    have h1 := hc a
+    have h2 := hc b
+    have h3 := hc c
+    simp at hs
+    obtain ⟨⟨hab, -⟩, ⟨hbc, -⟩, ⟨hcd, -⟩, ⟨hde, -⟩, ⟨hef, -⟩, hfg⟩ := hs
+    simp only [fiveEq, Bool.or_eq_false_iff, beq_eq_false_iff_ne]
+    refine ⟨⟨?_, ?_⟩, ?_⟩
+    · intro h
+      have : b = a := by omega
+      have : c = a := by omega
+      have : d = a := by omega
+      subst_vars
+      simp [List.count_cons] at h1 <;> omega
+    · intro h
+      have : c = b := by omega
+      have : d = b := by omega
+      have : e = b := by omega
+      subst_vars
+      simp [List.count_cons] at h2 <;> omega
+    · intro h
+      have : d = c := by omega
+      have : e = c := by omega
+      have : f = c := by omega
+      subst_vars
+      simp [List.count_cons] at h3
+      omega
 
 end EspadaVerif.Lemmas
